@@ -92,25 +92,26 @@ const (
 var c15ShapeNames = []string{"absent", "signed(p)", "signed(q)", "signed-noBTC", "signed-noTimestamp", "bad-signature", "other-chain-id", "other-height", "other-round", "listed-twice", "non-commit-empty", "non-commit-with-extension"}
 
 type c15State struct {
-	ctx     sdk.Context
-	w       *world.L2
-	set     string
-	hostH   int64
-	depth   int
-	flagOn  bool
+	ctx    sdk.Context
+	w      *world.L2
+	set    string
+	hostH  int64
+	depth  int
+	flagOn bool
 }
 
 type c15Sys struct {
-	initial    string
-	probeDepth int
-	mu         sync.Mutex
-	extCache   map[string][]byte
-	sigCache   map[string][]byte
-	probes     atomic.Int64
-	changed    atomic.Int64
-	atLine     atomic.Int64
-	rejected   atomic.Int64
-	reasons    sync.Map
+	initial     string
+	probeDepth  int
+	genesisVals [][2]string // L2 genesis validators (used by C18)
+	mu          sync.Mutex
+	extCache    map[string][]byte
+	sigCache    map[string][]byte
+	probes      atomic.Int64
+	changed     atomic.Int64
+	atLine      atomic.Int64
+	rejected    atomic.Int64
+	reasons     sync.Map
 }
 
 func newC15Sys(initial string, probeDepth int) *c15Sys {
@@ -123,7 +124,8 @@ var (
 )
 
 func (y *c15Sys) Root() *c15State {
-	w := world.NewL2(world.L2Options{Accounts: map[string]sdk.Coins{"executor": nil, "stranger": nil, "admin": nil}})
+	w := world.NewL2(world.L2Options{Accounts: map[string]sdk.Coins{"executor": nil, "stranger": nil, "admin": nil}, Validators: y.genesisVals,
+		Params: func(p *opchildtypes.Params) { p.MaxValidators = 5 }})
 	ctx := w.Ctx
 	w.OK.InitGenesis(ctx, oracletypes.GenesisState{CurrencyPairGenesis: []oracletypes.CurrencyPairGenesis{}})
 	for _, p := range c15Pairs {
